@@ -13,8 +13,7 @@
     root-to-leaf label paths of the category forest [f]; [levels f] Categories.levels of the
     chart data (leaf level first, idx = offset of the first leaf); [kept ct l] = [l] except
     for the pie types where it is the first element of [l]; [cat_text b f D l] the text
-    reported for label [l] (see [C07_label_text]); [xml_norm] CR/LF normalisation of an XML
-    parser. *)
+    reported for label [l] (see [C07_label_text]). *)
 From V.lib Require Import Prelude Wire Calendar.
 From V.model Require Import ChartData.
 From V.proofs Require Import ChartData_proofs.
@@ -23,7 +22,7 @@ Local Open Scope Z_scope.
 (** values: every series, every position, None where the value was missing, empty series
     included; X values of XY and bubble charts; idx and order unique. *)
 Theorem C07_values : forall ct d c, write ct d = Ok c ->
-  chart_names c = kept ct (map xml_norm (data_names d)) /\
+  chart_names c = kept ct (data_names d) /\
   chart_values c = kept ct (data_values d) /\
   uniq (area_sers c) /\
   match d with DCat _ _ _ => True | _ => chart_xvalues c = kept ct (data_xvalues d) end.
@@ -40,26 +39,24 @@ Theorem C07_cache_roundtrip : forall fmt vals, read_cache (num_cache fmt vals) =
 Proof. exact read_num_cache. Qed.
 Print Assumptions C07_cache_roundtrip.
 
-(** names are verbatim when they contain no carriage return *)
-Theorem C07_names : forall ct d c, write ct d = Ok c ->
-  Forall (fun s => no_cr s = true) (data_names d) -> chart_names c = kept ct (data_names d).
-Proof. exact write_names_verbatim. Qed.
+(** names, labels and format codes come back verbatim for all strings (a carriage return
+    used to come back as a line feed before fix d4e5a870): names in [C07_values] and
+    [C07_replace], labels in [C07_label_text], format codes in [C07_number_format] *)
+Theorem C07_names : forall ct d c, write ct d = Ok c -> chart_names c = kept ct (data_names d).
+Proof. exact (fun ct d c H => proj1 (write_reports ct d c H)). Qed.
 Print Assumptions C07_names.
 
-Theorem C07_replace_names : forall sc d c c', replace sc d c = Ok c' -> homog (ch_plots c) ->
-  Forall (fun s => no_cr s = true) (data_names d) -> chart_names c' = data_names d.
-Proof. exact replace_names_verbatim. Qed.
-Print Assumptions C07_replace_names.
+Example C07_cr_regression : exists c p s vc, write 57 w_cr_data = Ok c /\ ch_plots c = [p] /\ p_sers p = [s] /\
+  chart_names c = data_names w_cr_data /\ chart_names c = [w_cr] /\
+  plot_cat_labels p = [w_cr; [13%N]] /\
+  first_some kid_val (s_kids s) = Some vc /\ ca_fmt vc = Some w_cr.
+Proof. exact cr_regression. Qed.
 
 (** the full statement (every chart type reports every series) is refuted for pie types *)
 Theorem C07_values_pie_refuted : exists ct d c, write ct d = Ok c /\
-  chart_values c <> data_values d /\ chart_names c <> map xml_norm (data_names d).
+  chart_values c <> data_values d /\ chart_names c <> data_names d.
 Proof. exact pie_refuted. Qed.
 Print Assumptions C07_values_pie_refuted.
-
-Theorem C07_names_cr_refuted : exists ct d c, write ct d = Ok c /\ chart_names c <> data_names d.
-Proof. exact cr_refuted. Qed.
-Print Assumptions C07_names_cr_refuted.
 
 (** idx / order unique after write (in [C07_values]) and after any sequence of replace_data *)
 Theorem C07_idx_order_unique : forall sc ct d ops c0 c,
@@ -97,11 +94,11 @@ Theorem C07_flattened : forall tau f D, f <> [] -> all_depth D f ->
 Proof. exact flattened_levels. Qed.
 Print Assumptions C07_flattened.
 
-(** label texts: strings verbatim (no carriage return; the empty string included), numbers
-    as Python's text of the number, dates as the serial number with one decimal *)
+(** label texts: strings verbatim (every string: empty, with carriage returns), numbers as
+    Python's text of the number, dates as the serial number with one decimal *)
 Theorem C07_label_text :
-  (forall b f D s, cat_numeric f D = false -> no_cr s = true -> cat_text b f D (LStr s) = s) /\
-  (forall b f t, cat_numeric f 1 = true -> no_cr t = true -> cat_text b f 1 (LNum t) = t) /\
+  (forall b f D s, cat_numeric f D = false -> cat_text b f D (LStr s) = s) /\
+  (forall b f t, cat_numeric f 1 = true -> cat_text b f 1 (LNum t) = t) /\
   (forall b f y m d, cat_numeric f 1 = true ->
      cat_text b f 1 (LDate y m d) = show_Z (excel_serial b y m d) ++ s_dot0).
 Proof. exact (conj cat_text_str (conj cat_text_num cat_text_date)). Qed.
@@ -127,7 +124,7 @@ Proof. repeat split. Qed.
 
 (** an empty label is reported as the empty string (was refuted before fix fc4e9fce) *)
 Theorem C07_categories_empty_label : forall b f D, cat_numeric f D = false -> cat_text b f D (LStr []) = [].
-Proof. exact (fun b f D H => cat_text_str b f D [] H eq_refl). Qed.
+Proof. exact (fun b f D H => cat_text_str b f D [] H). Qed.
 Print Assumptions C07_categories_empty_label.
 
 Example C07_empty_label_regression : exists ct f sers c p,
@@ -140,8 +137,8 @@ Proof. exact empty_label_regression. Qed.
 (** number formats: kept as given, and never a reason for a writer to fail (was refuted
     for a double quote on date categories before fix db8d5348) *)
 Theorem C07_number_format :
-  (forall fmt vals, ca_fmt (num_cache fmt vals) = Some (xml_norm fmt)) /\
-  (forall b f fmt cx, write_cat b f (Some fmt) = Ok cx -> cx_kind cx = 1%N -> cx_fmt cx = Some (xml_norm fmt)).
+  (forall fmt vals, ca_fmt (num_cache fmt vals) = Some fmt) /\
+  (forall b f fmt cx, write_cat b f (Some fmt) = Ok cx -> cx_kind cx = 1%N -> cx_fmt cx = Some fmt).
 Proof. exact number_format_kept. Qed.
 Print Assumptions C07_number_format.
 
@@ -166,7 +163,7 @@ Print Assumptions C07_foreign_levels_refuted.
     first one, which holds for every chart a writer makes) *)
 Theorem C07_replace : forall sc d c c', replace sc d c = Ok c' -> homog (ch_plots c) ->
   length (area_sers c') = data_len d /\
-  chart_names c' = map xml_norm (data_names d) /\
+  chart_names c' = data_names d /\
   chart_values c' = data_values d /\
   (forall p0 r, ch_plots c = p0 :: r -> is_xy_plot (p_tag p0) = true -> chart_xvalues c' = data_xvalues d) /\
   (forall p0 r, ch_plots c = p0 :: r -> p_tag p0 = pt_bubble -> chart_sizes c' = data_sizes d).
